@@ -16,7 +16,7 @@ CHECKS = {
     'C01': 'ttsa.p_c01', 'C02': 'ttsa.p_c02', 'C03': 'ttsa.p_c03', 'C04': 'ttsa.p_c04', 'C05': 'ttsa.p_c05',
     'C06': 'ttsa.p_c06', 'C07': 'ttsa.p_c07', 'C08': 'ttsa.p_c08', 'C09': 'ttsa.p_c09', 'C10': 'ttsa.p_c10',
     'C11': 'ttsa.p_c11', 'C12': 'ttsa.p_c12', 'C13': 'ttsa.p_c13', 'C14': 'ttsa.p_c14', 'C15': 'ttsa.p_c15',
-    'C16': 'ttsa.p_c16', 'C17': 'ttsa.p_c17', 'C18': 'ttsa.p_c18', 'C19': 'ttsa.p_c19',
+    'C16': 'ttsa.p_c16', 'C17': 'ttsa.p_c17', 'C18': 'ttsa.p_c18', 'C19': 'ttsa.p_c19', 'C20': 'ttsa.p_c20',
 }
 
 
